@@ -1,4 +1,5 @@
 import CelmaVerif.Lemmas.FixedStringC11All
+import CelmaVerif.Lemmas.FixedStringC11Dev
 /-
   C11 — a fixed-capacity string equals `std::string` cut off at the capacity.
   Property theorems only (helper lemmas: Lemmas/FixedStringC11*.lean).
@@ -218,6 +219,133 @@ theorem C11_iteration (c : Cfg) (hc : CfgOK c) (s : FStr) (hs : WF c s) :
     iterFwd c s = .ok (abs s) ∧ iterRev c s = .ok (abs s).reverse :=
   ⟨iterFwd_abs hc hs, iterRev_abs hc hs⟩
 
+/-! ### outside the documented domain: what the code does where `inDomain` is false, next to `std::string`
+
+  `inDomain` excludes two kinds of arguments.  (1) Arguments on which `std::string` itself is undefined or throws
+  (`pos > size()`, unreadable `[p, p + n)`, `pop_back()` on an empty string): nothing to compare.  (2) Arguments on
+  which `std::string` is defined and `FixedString` deliberately answers differently; each of these is pinned by a
+  test of the baseline suite (src/library/common/test/test_fixed_string.cpp, lines quoted below) or follows from the
+  header's wording, so a repair is not possible without breaking the pinned tests.  The theorems of this section
+  make every exclusion of kind (2) a statement: the answer of the code for *all* such arguments, and the textbook
+  answer it differs from.  None of them is used by `C11_step`. -/
+
+/-- `at( length())` returns the terminator (header: "If the given index is invalid, i.e. after the end of the
+    string ..."; test `at` pins `at( length())`), `std::string::at( size())` throws `out_of_range`. -/
+theorem C11_deviation_at_length (c : Cfg) (s : FStr) (hs : WF c s) :
+    at_ s s.len = .ok 0 ∧ StdString.at_ (abs s) s.len = .throw .out_of_range :=
+  at_len hs
+
+/-- A count that reaches behind the terminator of a C string (`n > strlen( p)`).  `append( p, n)`,
+    `replace( pos, cnt, p, n)`, `compare( pos, cnt, p, n)` and `rfind( p, pos, n)` cut the count at the terminator:
+    they do exactly what the overloads without a count do — `append` leaves `(text ++ C string)` cut at the capacity —
+    whereas the textbook `std::string` overloads take the `n` bytes `[p, p + n)`, NUL and what follows included
+    (`a.take n`, a different text).  Header: "Appends a C string ... Number of characters from str", so `n ≤ strlen`
+    is the documented domain; `inDomain` requires it since the audit (before, the specification itself was cut at
+    the terminator). -/
+theorem C11_deviation_count_beyond_terminator (c : Cfg) (hc : CfgOK c) (s s' : FStr) (hs : WF c s) (a : List Byte)
+    (h0 : (0 : Byte) ∈ a) (n : Nat) (hn : (StdString.ofCStr a).length < n) (h : appendPN c s a n = .ok s') :
+    abs s' = (abs s ++ StdString.ofCStr a).take c.L ∧ a.take n ≠ StdString.ofCStr a ∧
+    (∀ p1 c1, replacePN c s p1 c1 a n = replaceP c s p1 c1 a) ∧
+    (∀ p1 c1 k, cstrlen a = .ok k → partPartCompare s p1 c1 a k 0 n = partPartCompare s p1 c1 a k 0 k) ∧
+    (∀ pos, rfindPN c s a pos n = rfindP c s a pos) := by
+  obtain ⟨k, hk, hlt, hof⟩ := cstrlen_of_mem h0
+  have hkn : k ≤ n := by rw [hof, List.length_take] at hn; omega
+  obtain ⟨e1, e2, e3, e4⟩ := dev_count_clamped c s hk n hkn
+  rw [e1] at h
+  have hnul : hasNul a = true := by unfold hasNul; exact List.contains_iff_mem.mpr h0
+  refine ⟨w2_appendP hc hs hnul h, dev_take_ne_ofCStr h0 hn, e2, ?_, e4⟩
+  intro p1 c1 k' hk'
+  rw [hk] at hk'; cases hk'
+  exact e3 p1 c1
+
+/-- `end()` — or an iterator built at a position `≥ size()`, which is `end()` too — as the position of the three
+    iterator `insert` overloads: nothing is inserted and `end()` is returned (header: "pointing to end if the given
+    position was invalid"; test lines 750-756 "insert using an invalid iterator for the position --> insert nothing",
+    1301-1309 "insert at end == insertz nothing"); `std::string::insert( end(), ...)` appends. -/
+theorem C11_deviation_insert_at_end (c cu : Cfg) (w : World) (hw : WFW c cu w) (p : ItArg)
+    (hp : actsEnd (abs w.s) p = true) (n : Nat) (ch : Byte) (il : Str) :
+    step c cu w (.insertItCC p n ch) = .ok (w, .iter (itEnd c)) ∧
+    step c cu w (.insertItC p ch) = .ok (w, .iter (itEnd c)) ∧
+    step c cu w (.insertItIl p il) = .ok (w, .iter (itEnd c)) ∧
+    spec id (npos c) w (.insertItCC p n ch) = .ok (abs w.s ++ List.replicate n ch, .unit) ∧
+    spec id (npos c) w (.insertItC p ch) = .ok (abs w.s ++ [ch], .unit) ∧
+    spec id (npos c) w (.insertItIl p il) = .ok (abs w.s ++ il, .unit) := by
+  have hi := itOf_actsEnd hw.1 hp
+  have hq := itPos_actsEnd hp
+  refine ⟨?_, ?_, ?_, ?_, ?_, ?_⟩
+  · show mutIt w (insertItCh c w.s (itOf c w.s p) n ch) = _
+    rw [hi, (dev_insert_at_end c w.s n ch il).1]; rfl
+  · show mutIt w (insertItCh c w.s (itOf c w.s p) 1 ch) = _
+    rw [hi, (dev_insert_at_end c w.s 1 ch il).1]; rfl
+  · show mutIt w (insertItList c w.s (itOf c w.s p) il) = _
+    rw [hi, (dev_insert_at_end c w.s n ch il).2]; rfl
+  · simp only [spec, hq, std_insert_at_end]; rfl
+  · simp only [spec, hq, std_insert_at_end]; rfl
+  · simp only [spec, hq, std_insert_at_end]; rfl
+
+/-- An empty range `[first, first)` as the part to replace (all six iterator overloads of `replace`): nothing
+    happens (test lines 2594-2601 "replace a part using invalid iterators --> replaces nothing");
+    `std::string::replace( first, first, ...)` inserts the new text at `first`. -/
+theorem C11_deviation_replace_empty_range (c : Cfg) (s o : FStr) (f x y : Nat) (d : Str) (i j : Nat) (a : List Byte)
+    (n2 ch : Nat) (il : Str) (xs r : Str) (k : Nat) (hk : k ≤ xs.length) :
+    (replaceItIt c s f f o x y = .ok s ∧ replaceItSIt c s f f d i j = .ok s ∧ replaceItPN c s f f a n2 = .ok s ∧
+     replaceItP c s f f a = bindR (cstrlen a) (fun _ => .ok s) ∧ replaceItCh c s f f n2 ch = .ok s ∧
+     replaceItList c s f f il = .ok s) ∧
+    StdString.replace xs k 0 r = .ok (xs.take k ++ r ++ xs.drop k) :=
+  ⟨dev_replace_empty_range c s o f x y d i j a n2 ch il, std_replace_empty_range xs r k hk⟩
+
+/-- An empty replacement text through the iterator overloads (`first2 == last2`, count 0, empty initializer list):
+    nothing happens (test: `replace( it, end, "")` pinned); `std::string` erases the range. -/
+theorem C11_deviation_replace_by_nothing (c : Cfg) (s o : FStr) (f l x : Nat) (d : Str) (i : Nat) (a : List Byte)
+    (ch : Nat) (xs : Str) (k n : Nat) (hk : k ≤ xs.length) :
+    (replaceItIt c s f l o x x = .ok s ∧ replaceItSIt c s f l d i i = .ok s ∧ replaceItPN c s f l a 0 = .ok s ∧
+     replaceItCh c s f l 0 ch = .ok s ∧ replaceItList c s f l [] = .ok s) ∧
+    StdString.replace xs k n [] = .ok (xs.take k ++ xs.drop (k + n)) :=
+  ⟨dev_replace_by_nothing c s o f l x d i a ch, std_replace_by_nothing xs k n hk⟩
+
+/-- `end()` as the first iterator of a range to replace or erase: nothing happens (test lines 2602-2608);
+    `std::string::replace( end(), end(), r)` appends `r`, `erase( end(), end())` does nothing either (only the
+    returned iterator is not compared). -/
+theorem C11_deviation_range_from_end (c : Cfg) (s o : FStr) (l x y : Nat) (d : Str) (i j : Nat) (n2 ch : Nat)
+    (xs r : Str) :
+    (replaceItIt c s (itEnd c) l o x y = .ok s ∧ replaceItSIt c s (itEnd c) l d i j = .ok s ∧
+     replaceItCh c s (itEnd c) l n2 ch = .ok s ∧ eraseItIt c s (itEnd c) l = .ok (s, itEnd c) ∧
+     eraseIt c s (itEnd c) = .ok (s, itEnd c)) ∧
+    StdString.replace xs xs.length 0 r = .ok (xs ++ r) := by
+  refine ⟨dev_range_from_end c s o l x y d i j n2 ch, ?_⟩
+  rw [std_replace_empty_range xs r xs.length (Nat.le_refl _), List.take_length, List.drop_length, List.append_nil]
+
+/-- Empty search strings and empty character sets.  `contains`, `find`, `rfind` and the four `find_*_of` families
+    answer `false` / `npos` for every content and every position (tests: 2232-2239 "always returns false for empty
+    strings", 2966, 3142, 3240 `rfind( "", 0, 5) == npos`, 3429, 3638).  `std::string` finds the empty string
+    everywhere: `contains( "")` is true, `find( "", pos) = pos`, `rfind( "", pos) = min( pos, size())`,
+    `find_first_not_of( "", pos) = pos` inside the string; only `find_first_of( "")` is `npos` there too. -/
+theorem C11_deviation_empty_needle (c : Cfg) (s : FStr) (a : List Byte) (pos : Nat) (neg : Bool) (x : Str) :
+    (containsImpl s a 0 = .ok false ∧ findN s a pos 0 = .ok none ∧ rfindN c s a pos 0 = .ok none ∧
+     findFirstOfImpl s a pos 0 neg = .ok none ∧ findFirstOfPN s a pos 0 neg = .ok none ∧
+     findLastOfImpl c s a pos 0 neg = .ok none ∧ findLastOfPN s a pos 0 neg = .ok none) ∧
+    StdString.contains x [] = true ∧ (pos ≤ x.length → StdString.find x [] pos = some pos) ∧
+    StdString.rfind x [] pos = some (min pos x.length) ∧
+    (pos < x.length → StdString.findFirstNotOf x [] pos = some pos) ∧ StdString.findFirstOf x [] pos = none ∧
+    StdString.findLastNotOf [97, 98] [] 5 = some 1 :=
+  ⟨dev_empty_needle c s a pos neg, std_contains_empty x, std_find_empty x pos, std_rfind_empty x pos,
+   std_ffno_empty x pos, std_ffo_empty x pos, by decide⟩
+
+/-- Backward searches with an explicit start position at or behind the end (other than `npos`): `rfind( ch, pos)`,
+    `find_last_of` and `find_last_not_of` answer `npos` (tests: 3301 `rfind( 'l', 20) == npos` on a string of length
+    20, 3595 `find_last_of( srch, 25, 6) == npos`, 3621 `find_last_of( 'e', 26) == npos`).  `std::string` clamps the
+    position: every `pos ≥ size()` gives the answer of the default position `npos` — which the code gives for `npos`
+    only (`C11_step`). -/
+theorem C11_deviation_backward_beyond_end (c : Cfg) (hc : CfgOK c) (s : FStr) (a : List Byte) (ch pos count : Nat)
+    (neg : Bool) (hp : s.len ≤ pos) (hn : pos < npos c) (x pat : Str) (p : Byte → Bool) (hx : x.length ≤ pos) :
+    (rfindCh c s ch pos = .ok none ∧ findLastOfCh c s ch pos neg = .ok none ∧
+     findLastOfImpl c s a pos count neg = .ok none ∧ (s.len < pos → findLastOfPN s a pos count neg = .ok none)) ∧
+    StdString.rfind x pat pos = StdString.rfind x pat (npos c) ∧
+    StdString.findLast x p pos = StdString.findLast x p (npos c) :=
+  ⟨dev_backward_beyond hc s a ch pos count neg hp hn,
+   std_rfind_beyond x pat pos (npos c) hx (by omega),
+   std_findLast_beyond x p pos (npos c) (by omega) (by omega)⟩
+
 /-! ### the hypotheses are satisfiable, the statements are not vacuous -/
 
 example : WF ⟨4, 2 ^ 64, 256⟩ ⟨[97, 98, 99, 0, 7], 3⟩ := by decide
@@ -230,5 +358,20 @@ example : replaceImpl ⟨4, 2 ^ 64, 256⟩ ⟨[97, 98, 99, 0, 7], 3⟩ 1 1 [88, 
 example : eqOp ⟨[97, 98, 0, 0], 2⟩ ⟨[97, 99, 0], 2⟩ = .ok false := by rfl
 example : neOp ⟨[97, 98, 0, 0], 2⟩ ⟨[97, 99, 0], 2⟩ = .ok true := by rfl
 example : iterRev ⟨4, 2 ^ 64, 256⟩ ⟨[97, 98, 99, 0, 7], 3⟩ = .ok [99, 98, 97] := by rfl
+
+/-- the count restriction is not vacuous: `append( "xy\0zz", 5)` — the code appends "xy", the textbook 5 bytes -/
+example : appendPN ⟨4, 2 ^ 64, 256⟩ ⟨[97, 0, 0, 0, 0], 1⟩ [120, 121, 0, 122, 122] 5 = .ok ⟨[97, 120, 121, 0, 0], 3⟩ := by
+  rfl
+example : (StdString.ofCStr [120, 121, 0, 122, 122]).length < 5 := by decide
+example : inDomain (npos ⟨4, 2 ^ 64, 256⟩) ⟨⟨[97, 0, 0, 0, 0], 1⟩, fresh ⟨4, 2 ^ 64, 256⟩, fresh ⟨9, 2 ^ 64, 256⟩⟩
+    (.appendPC [120, 121, 0, 122, 122] 5) = false := by decide
+example : inDomain (npos ⟨4, 2 ^ 64, 256⟩) ⟨⟨[97, 0, 0, 0, 0], 1⟩, fresh ⟨4, 2 ^ 64, 256⟩, fresh ⟨9, 2 ^ 64, 256⟩⟩
+    (.appendPC [120, 121, 0, 122, 122] 2) = true := by decide
+/-- `actsEnd` holds for `end()` and for an iterator built at `size()` -/
+example : actsEnd (abs ⟨[97, 98, 99, 0, 7], 3⟩) (.pos 3) = true ∧ actsEnd (abs ⟨[97, 98, 99, 0, 7], 3⟩) .fin = true := by
+  decide
+/-- backward search behind the end: `rfind( 'c', 3)` on "abc" is `npos`, `std::string` answers 2 -/
+example : rfindCh ⟨4, 2 ^ 64, 256⟩ ⟨[97, 98, 99, 0, 7], 3⟩ 99 3 = .ok none ∧ StdString.rfind [97, 98, 99] [99] 3 = some 2 :=
+  ⟨rfl, by decide⟩
 
 end CelmaVerif.Props.C11
